@@ -993,15 +993,17 @@ func showTimeInJS(tt time.Time) string {
 		return fmt.Sprintf(format, y, tt.Month(), tt.Day(), tt.Hour(), tt.Minute(), tt.Second(), ms)
 	}
 	zone := offset / 60
+	sign := '+'
+	if zone < 0 {
+		sign = '-'
+		zone = -zone
+	}
 	h, m := zone/60, zone%60
-	if m < 0 {
-		m = -m
-	}
-	format := `new Date("%0.4d-%0.2d-%0.2dT%0.2d:%0.2d:%0.2d.%0.3d%+0.2d:%0.2d")`
+	format := `new Date("%0.4d-%0.2d-%0.2dT%0.2d:%0.2d:%0.2d.%0.3d%c%0.2d:%0.2d")`
 	if y < 0 || y > 9999 {
-		format = `new Date("%+0.6d-%0.2d-%0.2dT%0.2d:%0.2d:%0.2d.%0.3d%+0.2d:%0.2d")`
+		format = `new Date("%+0.6d-%0.2d-%0.2dT%0.2d:%0.2d:%0.2d.%0.3d%c%0.2d:%0.2d")`
 	}
-	return fmt.Sprintf(format, y, tt.Month(), tt.Day(), tt.Hour(), tt.Minute(), tt.Second(), ms, h, m)
+	return fmt.Sprintf(format, y, tt.Month(), tt.Day(), tt.Hour(), tt.Minute(), tt.Second(), ms, sign, h, m)
 }
 
 // parseTagValue parses a 'json' tag value and returns its name and whether
